@@ -58,7 +58,11 @@ class Endpoint(metaclass=abc.ABCMeta):
             msg = f"Tried to register a prefix of length {len(prefix)}, required to be of length {self.prefixlen}!"
             raise RuntimeError(msg)
         with self.listener_update_lock:
-            self._prefix_map[prefix] = [*self._prefix_map.get(prefix, []), listener, *self._listeners]
+            if prefix in self._prefix_map:
+                # The general listeners are already part of an existing entry: adding them again duplicates packets.
+                self._prefix_map[prefix] = [*self._prefix_map[prefix], listener]
+            else:
+                self._prefix_map[prefix] = [listener, *self._listeners]
 
     def remove_listener(self, listener: EndpointListener) -> None:
         """
